@@ -10,9 +10,9 @@ RULE = ("for every joint degree sequence in the box and every motif configuratio
         "real random_clustered_graph, on 6 construction paths (fast/network/custom x direct/factory); build "
         "callbacks are wrapped in recorders; non-trivial = instance with >= 2 distinct arrangements")
 BOUNDS = {
-    "quick": "N 1..4 vertices; entries 0..2 (t<=2 topologies/orbits); 9 fast/network configs, 11 custom configs; "
-             "instances with more than 700 distinct arrangements are skipped and counted",
-    "thorough": "N<=5, entries<=3 (t=1); N<=4, entries<=2 and N<=5, entries<=1 (t=2); N<=4, entries<=1 and N<=3, entries<=2 (t=3); 12 fast + 13 custom configs; cap 5000 arrangements",
+    "quick": "N 1..4 vertices with entries 0..2 (t<=2 topologies/orbits) plus N<=3 with entries<=4 (t=1) and N<=2 with entries<=3 (t=2); 10 fast/network configs, 12 custom configs; "
+             "instances with more than 500 distinct arrangements are skipped and counted",
+    "thorough": "N<=5, entries<=3 (t=1); N<=4, entries<=2 and N<=5, entries<=1 (t=2); N<=4, entries<=1 and N<=3, entries<=2 (t=3); 13 fast + 14 custom configs; cap 5000 arrangements",
 }
 ASSUMPTIONS = ["equal stub values give identical executions, so distinct multiset arrangements (weighted by "
                "multiplicity) cover all n! permutations exactly",
